@@ -487,9 +487,11 @@ func (p *TxPool) wash(
 	err error,
 ) {
 	all := p.all.ToTxObjects()
+	verifWashBegin(p, headSummary, headBlockChanged, all)
 	var toRemove []*TxObject
 	defer func() {
 		evict := func(txObj *TxObject) {
+			verifWashMark(p, "wash.evict", txObj, nil)
 			if p.all.RemoveByHash(txObj.Hash()) {
 				addTxPoolMetric(txObj, -1)
 				countWashedTx(txObj)
@@ -497,6 +499,7 @@ func (p *TxPool) wash(
 			}
 		}
 		if err != nil {
+			verifWashMark(p, "wash.error", nil, err)
 			// in case of error, simply cut pool size to limit
 			for i, txObj := range all {
 				if len(all)-i <= p.options.Limit {
@@ -554,7 +557,9 @@ func (p *TxPool) wash(
 	}()
 
 	for _, txObj := range all {
+		verifWashMark(p, "eval.begin", txObj, nil)
 		if p.isBlocked(txObj.Transaction) {
+			verifWashMark(p, "eval.blocked", txObj, nil)
 			toRemove = append(toRemove, txObj)
 			logger.Trace("tx washed out", "id", txObj.ID(), "err", "blocked")
 			continue
@@ -562,6 +567,7 @@ func (p *TxPool) wash(
 
 		// out of lifetime
 		if !txObj.localSubmitted() && now > txObj.timeAdded+int64(p.options.MaxLifetime) {
+			verifWashMark(p, "eval.outlived", txObj, nil)
 			toRemove = append(toRemove, txObj)
 			logger.Trace("tx washed out", "id", txObj.ID(), "err", "out of lifetime")
 			continue
@@ -569,6 +575,7 @@ func (p *TxPool) wash(
 		// settled, out of energy or dep broken
 		executable, pricing, err := txObj.Evaluate(chain, newState(), headSummary.Header, p.forkConfig, baseFee, txObj.executable)
 		if err != nil {
+			verifWashMark(p, "eval.drop", txObj, err)
 			toRemove = append(toRemove, txObj)
 			logger.Trace("tx washed out", "id", txObj.ID(), "err", err)
 			continue
@@ -593,6 +600,7 @@ func (p *TxPool) wash(
 				nonExecutableObjs = append(nonExecutableObjs, txObj)
 			}
 		}
+		verifWashEvaluated(p, txObj, executable)
 	}
 
 	// sort objs by price from high to low.
@@ -631,15 +639,18 @@ func (p *TxPool) wash(
 	sortTxObjsByPriorityGasPriceDesc(executableObjs)
 
 	executables = make(tx.Transactions, 0, len(executableObjs))
+	verifWashLimit(p, executableObjs, toRemove)
 	var toBroadcast tx.Transactions
 
 	for _, obj := range executableObjs {
 		// the tx was not executable previously: validate payer energy before promoting
 		if !obj.executable {
+			verifWashMark(p, "pre.costof", obj, nil)
 			payer := *obj.Payer()
 			needs := new(big.Int).Add(p.all.PendingCostOf(payer), obj.Cost())
 			energy, err := builtin.Energy.Native(newState(), headSummary.Header.Timestamp()+thor.BlockInterval()).Get(payer)
 			if err != nil || energy.Cmp(needs) < 0 {
+				verifWashMark(p, "wash.unpayable", obj, err)
 				toRemove = append(toRemove, obj)
 				logger.Trace("tx washed out", "id", obj.ID(), "err", "insufficient energy for overall pending cost")
 				continue
